@@ -195,11 +195,15 @@ inductive ArrPath
 
 def arrPath (t : Ty) : ArrPath := if isBoolTy t then .bits else if isStdPrim t then .std else .loop
 
+/-- the argument text of `_serialize_integer`: `max(min(x, hi), lo)` when the type is saturated -/
+def intArg (signed : Bool) (n : Nat) (m : Cast) (x : Int) : Int :=
+  match m with
+  | .sat => max (min x (PyObj.intHi signed n)) (PyObj.intLo signed n)
+  | .trunc => x
+
 /-- `_serialize_integer(t, ref, offset)` -/
 def serInt (al signed : Bool) (n : Nat) (m : Cast) (s : Ser) (x : Int) : Except Exc Ser :=
-  let x := match m with
-    | .sat => max (min x (PyObj.intHi signed n)) (PyObj.intLo signed n)
-    | .trunc => x
+  let x := intArg signed n m x
   lift <|
     match intPath al n with
     | .alignedStd => if signed then addAlignedI n s x else addAlignedUW n s x
@@ -286,16 +290,21 @@ def joinSer (s nested : Ser) : Ser :=
 Every macro of `serialization.j2` is a combinator that receives the recursive renderings (`elem`, `obj`, `fields`,
 `nth`) as functions; the mutual block below ties the knot by structural recursion over the type. -/
 
+/-- the three element paths of both array macros; `al` is the claim the bulk methods use, `elem` the element
+rendering with the element offset already applied -/
+def serArrBody (env : Env) (elem : Ser → Val → Except Exc Ser) (t : Ty) (al : Bool) (s : Ser) (vs : List Val) :
+    Except Exc Ser :=
+  match arrPath t with
+  | .bits => serBitArray al s vs
+  | .std => serStdArray env al t s vs
+  | .loop => serElemsWith elem s vs
+
 /-- `_serialize_fixed_length_array(t, ref, offset)` inside `_serialize_any` (with the array's own padding) -/
 def serArrWith (env : Env) (elem : AOff → Ser → Val → Except Exc Ser) (t : Ty) (n : Nat) (o : AOff) (s : Ser)
     (vs : List Val) : Except Exc Ser := do
   let s0 ← serPad (align t) s
   assertThat (vs.length == n)
-  let s1 ←
-    match arrPath t with
-    | .bits => serBitArray o.isAligned s0 vs
-    | .std => serStdArray env o.isAligned t s0 vs
-    | .loop => serElemsWith (elem (o.add ((env.lr t).rep (n - 1)))) s0 vs
+  let s1 ← serArrBody env (elem (o.add ((env.lr t).rep (n - 1)))) t o.isAligned s0 vs
   serPad (align t) s1
 
 /-- `_serialize_variable_length_array(t, ref, offset)` inside `_serialize_any` -/
@@ -304,11 +313,7 @@ def serVarrWith (env : Env) (elem : AOff → Ser → Val → Except Exc Ser) (t 
   let s0 ← serPad (align t) s
   assertThat (decide (vs.length ≤ cap))
   let s1 ← serInt o.isAligned false (prefixBits cap) .trunc s0 (vs.length : Int)
-  let s2 ←
-    match arrPath t with
-    | .bits => serBitArray (o.add (some (prefixBits cap))).isAligned s1 vs
-    | .std => serStdArray env (o.add (some (prefixBits cap))).isAligned t s1 vs
-    | .loop => serElemsWith (elem (o.add (env.lr (.varr t cap)))) s1 vs
+  let s2 ← serArrBody env (elem (o.add (env.lr (.varr t cap)))) t (o.add (some (prefixBits cap))).isAligned s1 vs
   serPad (align t) s2
 
 /-- `_serialize_any` of a sealed composite: pad, `ref._serialize_(_ser_)`, alignment assertion -/
@@ -525,15 +530,19 @@ def ctorNth (env : Env) : List Ty → Nat → Val → Bool
 
 /-! ## Deserialization: the emitted methods -/
 
+/-- the three element paths of both array macros -/
+def deArrBody (env : Env) (elem : De → Except Exc (Val × De)) (t : Ty) (al : Bool) (count : Nat) (d : De) :
+    Except Exc (Val × De) :=
+  match arrPath t with
+  | .bits => deBitArray al count d
+  | .std => deStdArray env al t count d
+  | .loop => deElemArray elem (npStore t) count d
+
 /-- `_deserialize_fixed_length_array(t, ref, offset)` inside `_deserialize_any` -/
 def deArrWith (env : Env) (elem : AOff → De → Except Exc (Val × De)) (t : Ty) (n : Nat) (o : AOff) (d : De) :
     Except Exc (Val × De) := do
   let d0 ← dePad (align t) d
-  let r ←
-    match arrPath t with
-    | .bits => deBitArray o.isAligned n d0
-    | .std => deStdArray env o.isAligned t n d0
-    | .loop => deElemArray (elem (o.add ((env.lr t).rep (n - 1)))) (npStore t) n d0
+  let r ← deArrBody env (elem (o.add ((env.lr t).rep (n - 1)))) t o.isAligned n d0
   let d2 ← dePad (align t) r.2
   .ok (r.1, d2)
 
@@ -546,11 +555,7 @@ def deVarrWith (env : Env) (elem : AOff → De → Except Exc (Val × De)) (t : 
   if l.1 > (cap : Int) then .error (.format .badArrayLength)
   else do
     let count := l.1.toNat
-    let r ←
-      match arrPath t with
-      | .bits => deBitArray (o.add (some (prefixBits cap))).isAligned count l.2
-      | .std => deStdArray env (o.add (some (prefixBits cap))).isAligned t count l.2
-      | .loop => deElemArray (elem (o.add (env.lr (.varr t cap)))) (npStore t) count l.2
+    let r ← deArrBody env (elem (o.add (env.lr (.varr t cap)))) t (o.add (some (prefixBits cap))).isAligned count l.2
     let d2 ← dePad (align t) r.2
     .ok (r.1, d2)
 
